@@ -1,6 +1,7 @@
 package main
 
 import (
+	"bytes"
 	"math"
 	"math/big"
 
@@ -185,6 +186,55 @@ func corpusCases() []func(c *ctx) {
 						c.fail("script-parse-build", "ParseMultiSigContract(CreateMultiSigRedeemScript(%d of %d)) = %d, %d keys, ok=%v", m, n, pm, len(pks), ok)
 					}
 				}
+			}
+		},
+		// 8: the builder's sort: equal X / different Y in both orders, duplicates, the infinity key,
+		// 15/16/17 keys (PUSH15 | PUSHINT8 16 | PUSHINT8 17), m = n, m > n, m = 0
+		func(c *ctx) {
+			k := func(i int) *keys.PublicKey { return c.pool.priv[i].PublicKey() }
+			inf := &keys.PublicKey{}
+			lists := []keys.PublicKeys{
+				{k(0), negKey(k(0))}, {negKey(k(0)), k(0)}, {k(1), k(1)}, {k(2), k(1), k(2), negKey(k(1))},
+				{inf, k(0)}, {k(0), inf}, {inf, inf, k(3)}, {k(5), k(4), k(3), k(2), k(1), k(0)},
+			}
+			for _, l := range lists {
+				buildSorted(c, 1, l)
+				buildSorted(c, len(l), l)
+				cmpLines(c, l, 4)
+			}
+			for _, n := range []int{15, 16, 17} {
+				l := make(keys.PublicKeys, n)
+				for i := range l {
+					l[i] = k((i * 7) % len(c.pool.priv))
+				}
+				for _, m := range []int{0, 1, n - 1, n, n + 1} {
+					buildSorted(c, m, l)
+				}
+			}
+		},
+		// 9: every encoding of the counts of a 1-of-1 and a 16-of-17 script (accepted and rejected
+		// kinds), key pushes of 32/33/34/255 bytes
+		func(c *ctx) {
+			key := append([]byte{2}, bytes.Repeat([]byte{7}, 32)...)
+			tail := []byte{0x41, 0x9e, 0xd0, 0xdc, 0x3a}
+			for _, mn := range [][2]int{{1, 1}, {16, 17}} {
+				for ka := 0; ka <= 13; ka++ {
+					for _, kc := range []int{0, ka} {
+						var s []byte
+						s = append(s, countPush(c.r, mn[0], ka)...)
+						for i := 0; i < mn[1]; i++ {
+							s = append(append(s, 0x0c, 33), key...)
+						}
+						s = append(s, countPush(c.r, mn[1], kc)...)
+						msParse(c, append(s, tail...))
+					}
+				}
+			}
+			for _, l := range []int{32, 33, 34, 255} {
+				s := []byte{0x11, 0x0c, byte(l)}
+				s = append(s, bytes.Repeat([]byte{3}, l)...)
+				s = append(s, 0x11)
+				msParse(c, append(s, tail...))
 			}
 		},
 	}
